@@ -245,17 +245,18 @@ inductive SetMetaReply where
   | ok | oldEpoch | notMyMeta
   deriving DecidableEq, Repr
 
-/-- `MetaManager::set_meta`.  Blocking controllers live in the `BlockingMap` of the manager; the
-handle of a dropped migrating task is released with it, so only the controllers of surviving
-migrating tasks stay blocking. -/
+/-- `MetaManager::set_meta`.  Blocking controllers live in the `BlockingMap` of the manager, keyed by
+node address; a migrating task holds its node's `BlockingHandle` inside its own future, so the
+blocking of a dropped task ends with it and a freshly created task starts unblocked: only the
+nodes of *reused* migrating tasks stay blocking. -/
 def setMeta (p : ProxyState) (m : EMeta) : ProxyState × SetMetaReply :=
   if !checkHosts p.announceHost m.loc then (p, .notMyMeta)
   else if m.epoch ≤ p.epoch && !m.force then (p, .oldEpoch)
   else
     let tasks := updateTasks m.cluster p.tasks m.loc
-    let srcNodes := tasks.filterMap fun t =>
+    let keptSrcNodes := tasks.filterMap fun t =>
       match t.key.range.tag with
-      | .migrating i => some i.srcNode
+      | .migrating i => if p.tasks.any (fun o => o.key == t.key) then some i.srcNode else none
       | _ => none
     ({ p with
         epoch := m.epoch
@@ -263,7 +264,7 @@ def setMeta (p : ProxyState) (m : EMeta) : ProxyState × SetMetaReply :=
         migEmpty := tasks.isEmpty
         migCluster := m.cluster
         tasks := tasks
-        blocking := p.blocking.filter fun a => srcNodes.contains a }, .ok)
+        blocking := p.blocking.filter fun a => keptSrcNodes.contains a }, .ok)
 
 /-! ## the handshake (`UMCTL PRECHECK | PRESWITCH | FINALSWITCH`) -/
 
